@@ -98,12 +98,16 @@ pub open spec fn kid_spec(t: KeyType, s: SignatureScheme, algs: Option<Vec<Strin
 //@frame src/crypto.rs type=PublicKey fields=key_id,typ,scheme,keyid_hash_algorithms,value allow=impl:PublicKey/fn:new props=C12
 impl PublicKey {
     // C12: the stored identifier is the intrinsic identifier of the key's own type, scheme, hash-algorithm list and material
+    pub closed spec fn scheme_v(self) -> SignatureScheme { self.scheme }
+    pub closed spec fn typ_v(self) -> KeyType { self.typ }
+    pub closed spec fn bytes_v(self) -> Seq<u8> { self.value.0@ }
     pub closed spec fn wf_key(self) -> bool {
         kid_spec(self.typ, self.scheme, self.keyid_hash_algorithms, self.value.0@) == Some(self.key_id.id())
     }
 //@extract src/crypto.rs impl:PublicKey/fn:new props=C12,C14
 //@contract ret=r
-    ensures r is Ok ==> r->Ok_0.wf_key(),   // [C12]
+//@include contracts/publickey_new.rs
+            r is Ok ==> r->Ok_0.wf_key(),   // [C12]
             r is Ok <==> kid_spec(typ, scheme, keyid_hash_algorithms, value@) is Some,   // [C12]
 //@end
 }
